@@ -1,0 +1,43 @@
+//go:build verif
+
+package v2
+
+import (
+	"math"
+
+	"github.com/iotaledger/iota.go/consts"
+)
+
+// Simulation hooks, compiled only with the verif build tag.
+// A deterministic simulator assigns SimYield to take over the scheduling of the goroutines of Mine,
+// and SimState to observe or replace the hash state a worker is about to test.
+
+// actor ids passed to SimYield
+const (
+	simCaller  = 0
+	simWatcher = -1
+	simWorker  = 1 // worker i has id simWorker+i
+)
+
+var (
+	// SimYield is called at every scheduling point with the name of the point and the id of the calling actor.
+	SimYield func(site string, who int)
+	// SimState is called by a worker with the first 243 entries of the BCT state of the batch starting at nonce.
+	SimState func(l, h *[consts.HashTrinarySize]uint, nonce uint64)
+)
+
+func simYield(site string, who int) {
+	if SimYield != nil {
+		SimYield(site, who)
+	}
+}
+
+func simState(l, h *[consts.HashTrinarySize]uint, nonce uint64) {
+	if SimState != nil {
+		SimState(l, h, nonce)
+	}
+}
+
+func simWorkerID(w *Worker, startNonce uint64) int {
+	return simWorker + int(startNonce/(math.MaxUint64/uint64(w.numWorkers)))
+}
